@@ -112,7 +112,7 @@ class C09(Prop):
             "one burst or one at a time with the loop settled in between (paced); in bursts often with a slow user subscriber of the device entry, so that a backlog of frames builds up on the read queue while the entry is published; a quarter of the sequences contain a run of 2-8 undecodable frames of one kind followed by valid frames of that kind; `delivered` = handle_frame called with the frame and every name its payload decodes to dispatched on the device.  Non-trivial = "
             "at least one undecodable / device-less frame followed by a valid one; distinct by case content.")
     assumptions = ["`decode-time` probes: product-information frames with long model names are decoded in a child process under a wall-clock "
-                   "limit (real time, not the virtual clock): more than a second for one frame counts as a stalled pipeline",
+                   "limit (real time, not the virtual clock; decoding takes microseconds): more than five seconds for one frame counts as a stalled pipeline",
                    "whether a payload decodes is decided by the Coq decoders of C05 for the seven kinds that have one (sensor data, UID, regulator "
                    "data schema, ecoMAX / mixer parameters, alerts, schedules) and compared frame by frame with the verdict of the real decoder "
                    "on a fresh device; for the other kinds it is an oracle (the real decoder)",
@@ -224,7 +224,7 @@ class C09(Prop):
 
     def spec_many(self, cases, behaviours):
         if cases and all(c.get("kind") == "decode-time" for c in cases):
-            return [b["decode_seconds"] is not None and b["decode_seconds"] <= 1.0 for b in behaviours]
+            return [b["decode_seconds"] is not None and b["decode_seconds"] <= 5.0 for b in behaviours]
         res = model.call_many("P09", [[self._pframes(c), bytes(b["handed_valid"]), b["replies"], b["unfinished"]]
                                       for c, b in zip(cases, behaviours)])
         return [bool(r) and b["shutdown_ok"] and b["netinfo_payload_ok"] and b["producer_alive"] == 1
@@ -243,7 +243,7 @@ class C09(Prop):
             names.append("".join(rng.choice("ABCabcxyz  ") for _ in range(n)))
         return [{"kind": "decode-time", "frame_kind": kind, "payload": list(head + bytes([len(nm)]) + nm.encode())} for nm in names]
 
-    def _stall_run(self, cases, limit=20):
+    def _stall_run(self, cases, limit=90):
         import subprocess, sys
         script = ("import sys, json, time\n"
                   "sys.path.insert(0, '/repo')\n"
@@ -270,9 +270,9 @@ class C09(Prop):
         self._decode_times = [t for t in times if t is not None]
         fails = []
         for c, t in zip(cases, times):
-            if t is None or t > 1.0:
+            if t is None or t > 5.0:
                 fails.append({"case": c, "impl": {"decode_seconds": t}, "reason": "decoding one product-information frame keeps the event "
-                              "loop busy for more than a second (None = not finished within the limit): the pipeline is stalled"})
+                              "loop busy for more than five seconds (None = not finished within the limit): the pipeline is stalled"})
                 break           # (the payloads behind the first stalling one were not reached)
         return fails
 
